@@ -128,12 +128,13 @@ def gen_constraints(rng, oname, allow_lax=False, arg_elem=None):
             cons.append(("max_digits", rng.choice([1, 2, 3, 4, 6])))
         elif r < 0.85:
             cons.append(("multiple_of", rng.choice([2, 5])))
-        elif r < 0.93:
+        elif r < 0.93 or not ENABLE_REGEX_BEFORE_DECIMAL_PLACES:
             cons.append(("decimal_places", rng.choice([1, 2])))
             cons.append(("max_digits", rng.choice([3, 4, 5])))
         else:
-            # decimal_places completes a Decimal to the declared places: whatever is checked before it sees another text
-            cons.append(rng.choice([("regex", r"\d\.\d"), ("regex", r"-?\d+(\.\d)?"), ("const", Decimal("1.5")), ("enum", (Decimal("1.5"), Decimal("2")))]))
+            # decimal_places completes a Decimal to the declared places: the regex checked before it sees another text
+            # (only C01 generates this: for C02 'valid input' is undefined when the documented completion breaks the regex)
+            cons.append(rng.choice([("regex", r"\d\.\d"), ("regex", r"-?\d+(\.\d)?")]))
             cons.append(("decimal_places", rng.choice([2, 3])))
     elif oname in ("str", "bytes"):
         if r < 0.2:
@@ -183,6 +184,7 @@ def gen_constraints(rng, oname, allow_lax=False, arg_elem=None):
 
 
 ENABLE_BARE_CONTAINERS = True  # C13 switches this off: untyped elements are arbitrary Python objects, not JSON instances
+ENABLE_REGEX_BEFORE_DECIMAL_PLACES = False  # C01 only
 ENABLE_CONTAINS = False  # switched on by C01 only (other checks keep their constraint vocabulary)
 CONTAINS_POOL = {
     "int": [(("ge", 3),), (("const", 1),), (("multiple_of", 5),), (("lt", 0),), (("enum", (1, 2, 10)),)],
